@@ -110,7 +110,7 @@ pub fn window(s: &S) -> WindowStatement {
                     _ => panic!("frametype"),
                 };
                 // frame_start / frame_between, or the general frame() for part of the cases
-                let general = exprs::shash(c) % 2 == 1;
+                let general = exprs::shash(c) % 4 == 0;
                 if l.len() > 2 {
                     if general {
                         w.frame(ft, frame(&l[1]), Some(frame(&l[2])));
